@@ -103,7 +103,9 @@ def run_case(case: dict, st=None) -> Tuple[List[dict], Dict[str, Any]]:
         if case["kind"] == "scale-f" and (case["C"] or case["L"]):
             rc = raw_condition()
             if rc > 1e9:
-                root = "w-columns-not-equilibrated"
+                # the tag names the implementation and representation: only those that show the defect on the unchanged tree are
+                # listed as known, a newly affected implementation is reported
+                root = f"w-columns-not-equilibrated|{case['test']}|{'Y' if case['adm'] else 'Z'}"
                 detail += f" un-normalised design matrix condition {rc:.2g}"
         if root:
             viols.append({"key": f"invariance|{case['kind']}|{kind}|{root}", "what": f"{what} [{cfg}; {root}]", "case": case, "detail": detail})
